@@ -1,1 +1,63 @@
 //! Hooks owned by property C05 (feature `verif-hooks`).
+//!
+//! What the compiler decided about the host boundary of a program, as plain
+//! data: for every function item the layout / reference bit of each MIR
+//! parameter and of the return type (`Pool::layout_of`,
+//! `Pool::is_reference_type`), the lowered signature (`lir::Signature`:
+//! parameter `IrType`s after zero-sized filtering, `context`, `return_ptr`,
+//! `return_type`), and the signature under which each registered Rust
+//! function is called from the script (`Lowerer::call_runtime`).
+
+use crate::{FileTree, RotoReport, Runtime, runtime::OptCtx};
+
+/// `layout_of` / `is_reference_type` of one MIR type.
+#[derive(Clone, Debug, PartialEq, Eq)]
+pub struct TyFacts {
+    /// `(size, align)`; `None` = uninhabited
+    pub layout: Option<(usize, usize)>,
+    pub is_reference_type: Option<bool>,
+}
+
+/// One script function as the MIR sees it.
+#[derive(Clone, Debug, PartialEq, Eq)]
+pub struct MirSig {
+    pub name: String,
+    pub params: Vec<TyFacts>,
+    pub ret: TyFacts,
+}
+
+/// One function signature as the LIR (and so the JIT) declares it.
+#[derive(Clone, Debug, PartialEq, Eq)]
+pub struct IrSig {
+    pub name: String,
+    /// `Debug` names of the `IrType`s, in order
+    pub params: Vec<String>,
+    pub context: bool,
+    pub return_ptr: bool,
+    pub return_type: Option<String>,
+}
+
+#[derive(Clone, Debug, Default, PartialEq, Eq)]
+pub struct Dump {
+    pub mir: Vec<MirSig>,
+    pub lir: Vec<IrSig>,
+    /// registered Rust functions called by the script (name, signature used at the call)
+    pub runtime_calls: Vec<IrSig>,
+}
+
+/// Parse, type check and lower `tree` against `rt`; report the boundary facts.
+pub fn signatures<C: OptCtx>(
+    tree: FileTree,
+    rt: &Runtime<C>,
+) -> Result<Dump, RotoReport> {
+    let checked = tree.parse()?.typecheck(rt)?;
+    let mir = checked.lower_to_mir();
+    let mir_sigs = mir.verif_c05_mir_sigs();
+    let lir = mir.lower_to_lir();
+    let (lir_sigs, runtime_calls) = lir.verif_c05_ir_sigs();
+    Ok(Dump {
+        mir: mir_sigs,
+        lir: lir_sigs,
+        runtime_calls,
+    })
+}
